@@ -11,6 +11,8 @@ CONSTANTS
   BurnVeto = TRUE
   BurnPrevote = TRUE
   BurnQuorum = TRUE
+  ParamKeys = {}
+  MaxParamChanges = 0
   Seeded = TRUE
   Defects = {}
 INVARIANT MInv_P
